@@ -46,15 +46,19 @@ Definition EGP (f t k y : square) : bool :=
       else true).
 
 Definition EGin (f t : square) : bool := forallb (fun k => forallb (EGP f t k) allSquares) allSquares.
-Definition EGouter (f t : square) : bool := implb (epOK true f t || epOK false f t) (EGin f t).
+Definition EGouter (f t : square) : bool := if epOK true f t || epOK false f t then EGin f t else true.
 Lemma EG_ok : forallb (fun f => forallb (EGouter f) allSquares) allSquares = true.
 Proof. vm_compute. reflexivity. Qed.
 
 Lemma EG : forall c f t k y, f < 64 -> t < 64 -> k < 64 -> y < 64 -> epOK c f t = true -> EGP f t k y = true.
 Proof.
-  intros c f t k y Hf Ht Hk Hy Hok. pose proof (sweep2 EGouter EG_ok f t Hf Ht) as H2. unfold EGouter in H2.
+  intros c f t k y Hf Ht Hk Hy Hok. pose proof EG_ok as H.
+  rewrite forallb_forall in H. specialize (H f (sq_in_all f Hf)). cbv beta in H.
+  rewrite forallb_forall in H. specialize (H t (sq_in_all t Ht)). unfold EGouter in H.
   assert (Hc : epOK true f t || epOK false f t = true) by (destruct c; rewrite Hok; [reflexivity | apply orb_true_r]).
-  rewrite Hc in H2. cbn [implb] in H2. unfold EGin in H2. exact (sweep2 _ H2 k y Hk Hy).
+  rewrite Hc in H. unfold EGin in H.
+  rewrite forallb_forall in H. specialize (H k (sq_in_all k Hk)). cbv beta in H.
+  rewrite forallb_forall in H. exact (H y (sq_in_all y Hy)).
 Qed.
 
 Lemma ep_arith : forall (c : bool) f t, f < 64 -> t < 64 ->
